@@ -15,6 +15,25 @@ def whole {α} (p : P α) (ts : List String) : Option α :=
   | some (a, []) => some a
   | _ => none
 
+def pCall : P FetchCall
+  | net :: txid :: resp :: fresh :: r => do
+      pure ({ txId := ← parseStr txid, network := ← parseStr net, response := ← parseStr resp, fresh := ← parseBool fresh }, r)
+  | _ => none
+
+def insertByKey (e : String × Tx.Tx) : List (String × Tx.Tx) → List (String × Tx.Tx)
+  | [] => [e]
+  | x :: r => if e.1 < x.1 then e :: x :: r else x :: insertByKey e r
+
+def fCache (c : FetchCache) : String :=
+  let sorted := c.foldl (fun acc e => insertByKey e acc) []
+  String.intercalate " " (toString sorted.length :: sorted.map fun (k, t) => s!"{fmtStr k} {fTx t}")
+
+def histLines : FetchCache → List FetchCall → List String
+  | _, [] => []
+  | c, call :: r =>
+    let (a, c') := fetchStep Hash.hash256 c call
+    s!"{(a.map fTx).getD REJECT} ; {fCache c'}" :: histLines c' r
+
 def handle : List String → String
   | ["script_parse_raw", b] => optS do
       let b ← parseBytes b
@@ -84,6 +103,11 @@ def handle : List String → String
       let txid ← parseStr txid
       let resp ← parseStr resp
       pure (orReject ((fetch Hash.hash256 net txid resp).map fTx))
+  -- fetch_hist k (net id response fresh)…: a history of fetch calls on one cache, starting empty.
+  -- per call: `answer ; n key tx …` (the cache after the call, sorted by key), calls separated by ` | `
+  | "fetch_hist" :: ts => optS do
+      let calls ← whole (parseCounted pCall) ts
+      pure (String.intercalate " | " (histLines [] calls))
   | _ => BADOP
 
 def main : IO Unit := runDriver handle
